@@ -4,6 +4,7 @@ import (
 	"bytes"
 	"encoding/json"
 	"fmt"
+	"regexp"
 	"strings"
 
 	"verif/internal/check"
@@ -103,8 +104,8 @@ func (b *builder) genConfigs() {
 	dirs := []string{"__snapshots__", "snaps_dir", "nested/deep/__snapshots__", "/abs/snapdir", "../up/__snapshots__", ".snapshots", "__snaps[v2]__",
 		"./__snapshots__", "nested/../snaps_dir", scen.NominalDir + "/__snapshots__",
 		"linked_snaps", "linked_snaps/deep"} // (a symbolic link to another directory, and a not yet existing directory below it, see World)
-	names := []string{"shared", "custom_name", "zz_world_a_test", "my.snap.file", "data"}
-	exts := []string{".txt", ".json", ".snap", ".yaml", ""}
+	names := []string{"shared", "custom_name", "zz_world_a_test", "my.snap.file", "data", "http_2"}
+	exts := []string{".txt", ".json", ".snap", ".yaml", "", "json", ".golden.txt"}
 	for i := 0; i < n; i++ {
 		var c scen.ConfigSpec
 		if r.Bool(0.5) {
@@ -229,7 +230,7 @@ func (b *builder) fillValues(c *scen.Call) {
 }
 
 var subNames = []string{"sub", "s1", "case_a", "b", "sub10", "sub2", "nest", "A", "1", "Sub", "sub.1", "sub-2", "v9a", "v10", "7", "07", "50%_off", "x/y", "[x]", "sub#01", "ünï", "a=b",
-	"scenario_" + strings.Repeat("long_", 23)} // (124 bytes: what follows it in a test name lies beyond any 120-byte cut)
+	"R|TestB", "scenario_" + strings.Repeat("long_", 23)} // (124 bytes: what follows it in a test name lies beyond any 120-byte cut)
 
 func (b *builder) genNode(name, full string, site, depth int) *scen.TestNode {
 	r, p := b.r, b.p
@@ -617,6 +618,15 @@ func (b *builder) runPattern(prog []*scen.TestNode) string {
 		func() string { return "^" + parent() + "$/^nomatch$" },
 		func() string { return parent() + "/typo" },
 		func() string { return "^" + parent() + "$/^nomatch$" },
+		// a sub-test addressed exactly, its metacharacters escaped (`R\|W`, `\[x\]`, `sub\.1`)
+		func() string {
+			if len(subs) > 0 {
+				sp := subs[r.Intn(len(subs))]
+				i := strings.Index(sp, "/")
+				return "^" + sp[:i] + "$/^" + regexp.QuoteMeta(sp[i+1:]) + "$"
+			}
+			return "^" + t + "$"
+		},
 	}
 	risky := []func() string{
 		func() string {
